@@ -27,6 +27,8 @@ struct Case {
     wclass: u8,
     /// accumulation configured for *skip* connections (none exist here; it must not influence loops)
     skipacc: Acc,
+    /// an optional second loop connection over a later, disjoint range: (a, b, k, input skips)
+    second: Option<(usize, usize, usize, bool)>,
 }
 
 /// A range of layers whose output shape equals `dims` (the input shape of its first layer).
@@ -54,8 +56,22 @@ fn gen_range(t: &mut Tape, dims: &[usize], o: &GenOpts) -> Vec<LayerSpec> {
         }
     } else {
         let (c, h, w) = (dims[0], dims[1], dims[2]);
-        match t.pick(4) {
-            0 => vec![gen_same_size(t, c, h, w, o)],
+        match t.pick(6) {
+            4 if h >= 2 && w >= 2 => {
+                // pool 2x2 stride 1 shrinks by 1, deconvolution 2x2 stride 1 grows by 1: the range starts at a max-pool
+                vec![
+                    LayerSpec::Pool { kernel: (2, 2), stride: (1, 1) },
+                    LayerSpec::Deconv { cfg: ConvCfg { filters: c, kernel: (2, 2), stride: (1, 1), padding: (0, 0), dilation: (1, 1) }, act: gen_act(t, o), dropout: None },
+                ]
+            }
+            5 if h >= 3 && w >= 3 => {
+                // pool 3x3 stride 1 shrinks by 2, 1x1 convolution with padding 1 grows by 2
+                vec![
+                    LayerSpec::Pool { kernel: (3, 3), stride: (1, 1) },
+                    LayerSpec::Conv { cfg: ConvCfg { filters: c, kernel: (1, 1), stride: (1, 1), padding: (1, 1), dilation: (1, 1) }, act: gen_act(t, o), dropout: None },
+                ]
+            }
+            0 | 4 | 5 => vec![gen_same_size(t, c, h, w, o)],
             1 => {
                 let mid = t.usize(1, 3);
                 vec![gen_same_size(t, mid, h, w, o), gen_same_size(t, c, h, w, o)]
@@ -97,6 +113,23 @@ fn decode(tape: &[u32]) -> Case {
     let range = gen_range(&mut t, &dims_in, &o);
     layers.extend(range);
     let b = layers.len() - 1;
+    // one case in four: a second loop connection over a later, disjoint range (optionally one layer in between)
+    let mut second = None;
+    if t.chance(1, 4) {
+        let mut cur2 = dims_in.clone();
+        if t.bool() {
+            let l = gen_layer(&mut t, &cur2, false, &o, false);
+            cur2 = model_out(&cur2, &l).unwrap();
+            layers.push(l);
+        }
+        let a2 = layers.len();
+        let spatial2 = cur2.len() == 3 || (isqrt_exact(cur2[0]).is_some() && t.bool());
+        let dims2 = if spatial2 { let (c, h, w) = spatial_dims(&cur2); vec![c, h, w] } else { vec![count(&cur2)] };
+        let r2 = gen_range(&mut t, &dims2, &o);
+        layers.extend(r2);
+        second = Some((a2, layers.len() - 1, t.usize(1, 3), t.bool()));
+    }
+    let dims_in = match second { Some((a2, _, _, _)) => { let mut c = input.clone(); for l in &layers[..a2] { c = model_out(&c, l).unwrap(); } if layers[a2].is_spatial() { let (cc, h, w) = spatial_dims(&c); vec![cc, h, w] } else { vec![count(&c)] } } None => dims_in };
     // optional suffix: a dense layer (flattens a spatial range output) or another fitting layer
     match t.pick(3) {
         0 => {}
@@ -109,7 +142,7 @@ fn decode(tape: &[u32]) -> Case {
     // k is mostly 1..3; one case in five loops 4..24 times (long loops settle to a fixed point)
     let k = if t.chance(1, 5) { t.usize(4, 24) } else { t.usize(1, 3) };
     let wclass = t.pick(4) as u8;
-    Case { spec: NetSpec { input, layers }, a, b, k, acc: ACCS[t.pick(5)], inskips: t.bool(), wseed: t.raw(), xseed: t.raw(), wclass, skipacc: ACCS[t.pick(5)] }
+    Case { spec: NetSpec { input, layers }, a, b, k, acc: ACCS[t.pick(5)], inskips: t.bool(), wseed: t.raw(), xseed: t.raw(), wclass, skipacc: ACCS[t.pick(5)], second }
 }
 
 fn build_loop(case: &Case) -> Result<Network, String> {
@@ -118,6 +151,9 @@ fn build_loop(case: &Case) -> Result<Network, String> {
     catch(std::panic::AssertUnwindSafe(|| {
         net.set_accumulation(sacc.lib(), acc.lib());
         net.loopback(b, a, k, Arc::new(|x| 1.0 / x), ins);
+        if let Some((a2, b2, k2, ins2)) = case.second {
+            net.loopback(b2, a2, k2, Arc::new(|x| 1.0 / x), ins2);
+        }
     }))?;
     Ok(net)
 }
@@ -141,7 +177,7 @@ fn check(case: &Case, ev: &mut CaseEv) -> CheckResult {
     if case.wclass == 3 {
         for (r, t) in ps.iter_mut() {
             // zero the weight matrices / kernels of the looped range, keep biases
-            if r.layer >= case.a && r.layer <= case.b && (r.tensor == 0 || spec.layers[r.layer].is_spatial()) {
+            if ((r.layer >= case.a && r.layer <= case.b) || case.second.map(|(a2, b2, _, _)| r.layer >= a2 && r.layer <= b2).unwrap_or(false)) && (r.tensor == 0 || spec.layers[r.layer].is_spatial()) {
                 let d = tensor_dims(t);
                 *t = tens::build(&d, &vec![0.0; count(&d)]);
             }
@@ -166,24 +202,36 @@ fn check(case: &Case, ev: &mut CaseEv) -> CheckResult {
             cur
         })
     };
-    let xa = fwd(0, case.a, &xt).map_err(Fail::new)?;
-    let mut outs: Vec<Tensor> = vec![fwd(case.a, case.b + 1, &xa).map_err(Fail::new)?];
-    for _ in 0..case.k {
-        let prev = outs.last().unwrap().clone();
-        let mut cur = if prev.shape != xa.shape { prev.reshape(xa.shape.clone()) } else { prev };
-        if case.inskips {
-            cur = accumulate(Acc::Add, &cur, &[xa.clone()]);
+    // value passed on after a looped range a..b fed with xa
+    let looped = |a: usize, b: usize, k: usize, inskips: bool, xa: &Tensor| -> Result<Tensor, Fail> {
+        let mut outs: Vec<Tensor> = vec![fwd(a, b + 1, xa).map_err(Fail::new)?];
+        for _ in 0..k {
+            let prev = outs.last().unwrap().clone();
+            let mut cur = if prev.shape != xa.shape { prev.reshape(xa.shape.clone()) } else { prev };
+            if inskips {
+                cur = accumulate(Acc::Add, &cur, &[xa.clone()]);
+            }
+            outs.push(fwd(a, b + 1, &cur).map_err(|p| Fail::new(format!("harness model: range forward panicked: {p}")))?);
         }
-        outs.push(fwd(case.a, case.b + 1, &cur).map_err(|p| Fail::new(format!("harness model: range forward panicked: {p}")))?);
-    }
-    let passed_on = accumulate(case.acc, &outs[0], &outs[1..]);
-    let model = fwd(case.b + 1, net.layers.len(), &passed_on).map_err(Fail::new)?;
+        Ok(accumulate(case.acc, &outs[0], &outs[1..]))
+    };
+    let xa = fwd(0, case.a, &xt).map_err(Fail::new)?;
+    let passed_on = looped(case.a, case.b, case.k, case.inskips, &xa)?;
+    let model = match case.second {
+        None => fwd(case.b + 1, net.layers.len(), &passed_on).map_err(Fail::new)?,
+        Some((a2, b2, k2, ins2)) => {
+            ev.class("two loop connections");
+            let xa2 = fwd(case.b + 1, a2, &passed_on).map_err(Fail::new)?;
+            let p2 = looped(a2, b2, k2, ins2, &xa2)?;
+            fwd(b2 + 1, net.layers.len(), &p2).map_err(Fail::new)?
+        }
+    };
 
     let got = match catch(|| net.predict(&xt)) {
         Ok(g) => g,
         Err(p) => {
             let msg = format!("predict panicked with loop {}..{} x{} ({:?}, inskips {}): {}; spec {:?}", case.a, case.b, case.k, case.acc, case.inskips, p, spec);
-            if flattened_end && case.inskips {
+            if flattened_end && case.inskips && case.second.is_none() {
                 return Err(Fail::known(msg, "loop_flattened_output_inskips"));
             }
             fail!("{}", msg);
@@ -198,12 +246,12 @@ fn check(case: &Case, ev: &mut CaseEv) -> CheckResult {
         let d = ulps32(g[i], m[i]);
         ensure!(
             d <= 2,
-            "loop {}..{} x{} ({:?}, inskips {}): output element {} is {:e}, the accumulated repeated sub-network gives {:e}; spec {:?}",
-            case.a, case.b, case.k, case.acc, case.inskips, i, g[i], m[i], spec
+            "loop {}..{} x{} ({:?}, inskips {}){}: output element {} is {:e}, the accumulated repeated sub-network gives {:e}; spec {:?}",
+            case.a, case.b, case.k, case.acc, case.inskips, match case.second { Some((a2, b2, k2, i2)) => format!(" and loop {}..{} x{} (inskips {})", a2, b2, k2, i2), None => String::new() }, i, g[i], m[i], spec
         );
     }
     // overwrite == plain network with the range repeated k+1 times (shared weights)
-    if case.acc == Acc::Overwrite && !case.inskips {
+    if case.acc == Acc::Overwrite && !case.inskips && case.second.is_none() {
         let mut layers = spec.layers[..case.a].to_vec();
         for _ in 0..=case.k {
             layers.extend_from_slice(&spec.layers[case.a..=case.b]);
@@ -239,7 +287,7 @@ fn check(case: &Case, ev: &mut CaseEv) -> CheckResult {
         ev.class("overwrite twin checked");
     }
     ev.nontrivial = case.k >= 1 && (case.a < case.b || range_spatial);
-    ev.set_sig(&(spec, case.a, case.b, case.k, case.acc, case.inskips));
+    ev.set_sig(&(spec, case.a, case.b, case.k, case.acc, case.inskips, case.second));
     Ok(())
 }
 
@@ -256,14 +304,14 @@ impl Prop for C17 {
         t.pick(400_000, 30_000_000)
     }
     fn rule(&self) -> String {
-        "tape-decoded network = optional prefix layer + looped range a..b whose output shape equals the input shape of a (1-3 dense layers; 1-2 shape-preserving convolutions / deconvolutions; 1x1-kernel padding-1 convolution + 3x3 pool; 2x2 deconvolution + 2x2 pool) + optional suffix (a dense layer, which makes the range output flattened, or another fitting layer); k = 1..3 (one case in five: 4..24), ordinary / small / zero weights in the range, five accumulations, input skips on/off, any accumulation configured for (absent) skip connections; distinct weights, random inputs. Oracle: o0 = R(x_a), oi = R(o(i-1) [+ x_a]), value passed on = acc(o0; o1..ok), composed from the library's own single-layer forwards (accumulations computed by the harness) (<= 2 ulp, bit-identical today); for overwrite without input skips additionally the plain network with a..b repeated k+1 times and the same weights. Non-trivial: a < b or a spatial range. Distinct = (architecture, a, b, k, accumulation, input skips).".into()
+        "tape-decoded network = optional prefix layer + looped range a..b whose output shape equals the input shape of a (1-3 dense layers; 1-2 shape-preserving convolutions / deconvolutions; 1x1-kernel padding-1 convolution + 3x3 pool; 2x2 deconvolution + 2x2 pool; 2x2 pool + 2x2 deconvolution and 3x3 pool + padded 1x1 convolution, i.e. ranges that start at a max-pool); in one case of four a second loop connection over a later disjoint range (optionally one layer in between) + optional suffix (a dense layer, which makes the range output flattened, or another fitting layer); k = 1..3 (one case in five: 4..24), ordinary / small / zero weights in the range, five accumulations, input skips on/off, any accumulation configured for (absent) skip connections; distinct weights, random inputs. Oracle: o0 = R(x_a), oi = R(o(i-1) [+ x_a]), value passed on = acc(o0; o1..ok), composed from the library's own single-layer forwards (accumulations computed by the harness) (<= 2 ulp, bit-identical today); for overwrite without input skips additionally the plain network with a..b repeated k+1 times and the same weights. Non-trivial: a < b or a spatial range. Distinct = (architecture, a, b, k, accumulation, input skips).".into()
     }
     fn run_case(&self, tape: &[u32], ev: &mut CaseEv) -> CheckResult {
         check(&decode(tape), ev)
     }
     fn describe(&self, tape: &[u32]) -> Value {
         let c = decode(tape);
-        json!({"spec": format!("{:?}", c.spec), "a": c.a, "b": c.b, "k": c.k, "acc": format!("{:?}", c.acc), "inskips": c.inskips})
+        json!({"spec": format!("{:?}", c.spec), "a": c.a, "b": c.b, "k": c.k, "acc": format!("{:?}", c.acc), "inskips": c.inskips, "second_loop(a,b,k,inskips)": format!("{:?}", c.second)})
     }
 }
 
